@@ -515,8 +515,9 @@ fn resolve_regions(
                 return Some(());
             }
 
+            let last_address = self.last_address.checked_add(size)?;
             self.regions.push(region);
-            self.last_address += size;
+            self.last_address = last_address;
             Some(())
         }
     }
